@@ -426,9 +426,9 @@ func inValid(input sx.S) bool {
 }
 
 func c17Gen(r *rand.Rand, tier string) []Case {
-	n := 25
+	n := 50
 	if tier == "thorough" {
-		n = 200
+		n = 400
 	}
 	var out []Case
 	for i := 0; i < n; i++ {
@@ -499,7 +499,26 @@ func c17Gen(r *rand.Rand, tier string) []Case {
 		}
 		var docs [][]scItem
 		tags := []string{"nontrivial"}
-		switch r.Intn(4) {
+		variant := r.Intn(5)
+		if variant == 4 {
+			// an object gains an interface through a later load that holds nothing but that extension
+			// (introspection runs between the loads: what it answered before must not stick)
+			variant = 3
+			for j := range w {
+				if w[j].K == kObject && !w[j].Ext && len(w[j].Ifaces) > 0 {
+					base := scCopy(w)
+					ci := r.Intn(len(w[j].Ifaces))
+					moved := base[j].Ifaces[ci]
+					base[j].Ifaces = append(append([]int{}, base[j].Ifaces[:ci]...), base[j].Ifaces[ci+1:]...)
+					docs = [][]scItem{base, {{Ext: true, K: kObject, N: w[j].N, Ifaces: []int{moved}}}}
+					tags = append(tags, "partitioned", "interface-gained-in-a-later-load")
+					variant = -1
+					break
+				}
+			}
+		}
+		switch variant {
+		case -1:
 		case 0:
 			docs = [][]scItem{w}
 		case 1:
